@@ -1047,6 +1047,7 @@ def pattern_i16tou32(context, tree, c0):
 @arm_isa.pattern("reg", "CONSTU32", size=8)
 @arm_isa.pattern("reg", "CONSTI16", size=8)
 @arm_isa.pattern("reg", "CONSTU16", size=8)
+@arm_isa.pattern("reg", "CONSTI8", size=8)
 def pattern_const32(context, tree):
     d = context.new_reg(ArmRegister)
     ln = context.frame.add_constant(tree.value)
